@@ -45,7 +45,7 @@ def execute(ctx, cases, res, judge=None, timeout=120, release=False):
         key = "\n".join(c.spec)
         if key not in seen:
             seen.add(key)
-        if ctx.with_model:
+        if ctx.with_model and not c.meta.get('no_model'):
             if c.diff is None:
                 res['n_corr'] += 1
             else:
@@ -76,6 +76,9 @@ def execute(ctx, cases, res, judge=None, timeout=120, release=False):
 def run_replay(ctx, P, path):
     """Replay a stored spec (implementation + model) and apply the property's generic judge."""
     lines = [l.rstrip('\n') for l in open(path) if l.strip()]
+    if P.get('replay_aware'):
+        ctx.replay_lines = lines
+        return P['run'](ctx)
     c = Case('replay', lines, {'component': 'replay'})
     res = new_results('replay of %s' % path, ['replay'])
     execute(ctx, [c], res, judge=P.get('judge_any'))
@@ -712,6 +715,19 @@ def valid_stream(ctx, n_quick, n_thorough, tag, **kw):
 OKRES = ('counts', 'vecs', 'unit')
 
 
+def corpus_cases(prefix='fixed_'):
+    """minimised histories of repaired defects: valid, in-envelope, run first on every check of C03"""
+    out = []
+    d = os.path.join(VERIF, 'corpus')
+    for f in sorted(os.listdir(d)):
+        if f.startswith(prefix) and f.endswith('.spec'):
+            lines = [l.rstrip('\n') for l in open(os.path.join(d, f)) if l.strip()]
+            kind = parse_kv(next(l for l in lines if l.startswith('NEW'))).get('kind')
+            nops = sum(1 for l in lines if l.split(' ')[0] in ('PIB', 'PROCESS', 'PARTIALINTO', 'PARTIAL', 'SETRATIO', 'SETREL', 'SETCHUNK', 'RESET'))
+            out.append(Case('corpus_' + f[:-5], lines, {'cfg': {'kind': kind}, 'ops': [{'op': 'corpus', 'envelope': True} for _ in range(nops)]}))
+    return out
+
+
 def judge_C03(c):
     out = []
     tr = c.trace
@@ -737,7 +753,7 @@ def run_C03(ctx):
                       "(ramp on/off), set_chunk_size, reset; every outcome must be Ok (or the Err the contract prescribes for that call); "
                       "each history also runs on the extracted model, which must predict the same outcome bit for bit",
                       ALL_COMPONENTS)
-    cases = valid_stream(ctx, 84, 1400, 'v')
+    cases = corpus_cases() + valid_stream(ctx, 84, 1400, 'v')
     execute(ctx, cases, res, judge_C03, timeout=300)
     res['dist'].update(collections.Counter("%s:%s" % (c.meta['cfg']['kind'], a['op']) for c in cases for a in c.meta['ops']))
     res['dist']['calls_outside_envelope'] = sum(1 for c in cases for a in c.meta['ops'] if not a.get('envelope', True))
@@ -1398,6 +1414,278 @@ def run_C11(ctx):
     return res
 
 
+# ================================================================== C09
+HARD_FFT_PAIRS = [(96, 83), (83, 96), (50, 107), (149, 100), (167, 64), (64, 173), (179, 120), (120, 166), (249, 200), (107, 83), (83, 149)]
+COUNTED_OPS = ('PIB', 'SETRATIO', 'SETREL', 'SETCHUNK', 'RESET')
+
+
+def gen_no_alloc(rep):
+    a = rep.get('alloc_constructs', None)
+    if a is None:
+        return False, "no allocation summary was generated"
+    if a:
+        return False, "allocation-capable constructs inside the real-time call tree: " + "; ".join("%s:%s:%d %s" % (x['file'], x['fn'], x['line'], x['text']) for x in a[:6])
+    return True, "no allocation-capable construct (vec!, Vec::new, collect, clone, push, resize, Box::new, format!, realfft process without scratch ...) in %s" % "the monitored functions"
+
+
+def run_C09(ctx):
+    rng, tier = ctx.rng, ctx.tier
+    res = new_results("every process_into_buffer / setter / reset / getter call of every history on all seven types x {f32,f64} is bracketed by a "
+                      "counting #[global_allocator] (alloc + realloc + dealloc events of the calling thread): the count must be 0; incl. first call, "
+                      "calls after ratio / chunk-size changes and reset, masked and rejected calls, FFT lengths planned with Rader/Bluestein", ALL_COMPONENTS)
+    cases = []
+    n = 56 if ctx.quick else 700
+    allowed = ['pib'] * 5 + ['setratio', 'setrel', 'setchunk', 'reset']
+    rl = getattr(ctx, 'replay_lines', None)
+    if rl:
+        n = 0
+        spec = [l.replace(' allocs=1', '') for l in rl]
+        kind = parse_kv(next(l for l in spec if l.startswith('NEW'))).get('kind')
+        cases += [Case("replay", spec, {'cfg': {'kind': kind}, 'is_twin': True}),
+                  Case("replay_count", [(l + " allocs=1") if l.split(' ')[0] in COUNTED_OPS else l for l in spec],
+                       {'cfg': {'kind': kind}, 'no_model': True, 'kind': kind})]
+    for i in range(n):
+        r = rng.fork("c09_%d" % i)
+        k = gens.ALL[i % 7]
+        ty = ['f64', 'f32'][(i // 7) % 2]
+        if k in gens.ASYNC:
+            cfg = async_cfg(r, k, 'quick', ty=ty)
+        else:
+            cfg = fft_cfg(r, k, 'quick', ty=ty)
+            if r.chance(0.5):
+                cfg['rin'], cfg['rout'] = r.choice(HARD_FFT_PAIRS)
+                cfg['chunk'] = min(cfg['chunk'], 300)
+        h = gens.valid_history(r.fork('h'), k, 'quick', "na_%04d_%s" % (i, k), cfg=cfg, ops_allowed=allowed, allow_out_of_envelope=False)
+        spec = list(h.spec)
+        if r.chance(0.4):
+            # a rejected call: still no allocation
+            spec.insert(2 + r.below(len(spec) - 1), "PIB mask=- inlen=%s outlen=%s sig=zero" % (";".join(['abs:0'] * cfg['nch']), ";".join(['max'] * cfg['nch'])))
+        plain = Case("na_%04d_%s" % (i, k), spec, {'cfg': cfg, 'is_twin': True})
+        counted = Case("na_%04d_%s_count" % (i, k), [(l + " allocs=1") if l.split(' ')[0] in COUNTED_OPS else l for l in spec],
+                       {'cfg': cfg, 'no_model': True, 'kind': k + '/' + ty})
+        cases += [plain, counted]
+
+    def judge(c):
+        if c.meta.get('is_twin'):
+            return []
+        out = []
+        tr = c.trace
+        if tr['new'] != 'ok':
+            return []
+        for i, s in enumerate(tr['steps']):
+            if s.res in FATAL:
+                out.append(fail(c, i, "fatal outcome %s inside the envelope" % s.res))
+                break
+            if s.op in COUNTED_OPS:
+                if s.allocs is None:
+                    out.append(fail(c, i, "no allocation count was reported for %s" % s.op))
+                    break
+                if s.allocs != 0:
+                    out.append(fail(c, i, "%s performed %d heap alloc/realloc/dealloc events" % (s.op, s.allocs)))
+                    break
+                if s.galloc not in (0, None):
+                    out.append(fail(c, i, "the getters performed %d heap events" % s.galloc))
+                    break
+        return out
+
+    execute(ctx, cases, res, judge, timeout=300)
+    res['dist'].update(collections.Counter(c.meta.get('kind', 'twin') for c in cases))
+    return res
+
+
+# ================================================================== C17
+EPS32 = 2.0 ** -23
+C17_TOL = 48.0          # multiples of f32 epsilon times the peak (measured maximum on the pinned tree: see DESIGN.md)
+
+
+def run_C17(ctx):
+    rng, tier = ctx.rng, ctx.tier
+    res = new_results("twin histories on all seven types: the same configuration and history run with T=f64 and T=f32; result kinds, returned "
+                      "frame counts, all six getters after every call must be identical; every f32 output sample must lie within %g * 2^-23 * peak "
+                      "of the f64 output (peak = max(1, max |f64 output|)) (signals: uniform noise or sines of amplitude 1)" % C17_TOL, ALL_COMPONENTS)
+    cases = []
+    n = 42 if ctx.quick else 560
+    rl = getattr(ctx, 'replay_lines', None)
+    if rl:
+        n = 0
+        kind = parse_kv(next(l for l in rl if l.startswith('NEW'))).get('kind')
+        a = Case("replay_64", ["T ty=f64"] + [l for l in rl if not l.startswith('T ')], {'cfg': {'kind': kind}, 'kind': kind})
+        b = Case("replay_32", ["T ty=f32"] + [l for l in rl if not l.startswith('T ')], {'cfg': {'kind': kind}, 'is_twin': True})
+        a.meta['twin'] = b
+        cases += [a, b]
+    for i in range(n):
+        r = rng.fork("c17_%d" % i)
+        k = gens.ALL[i % 7]
+        big = (i // 7) % 3 == 2
+        if k in gens.ASYNC:
+            cfg = async_cfg(r, k, 'thorough' if (big and k.startswith('fast')) else 'quick', ty='f64')
+            if big and k.startswith('fast'):
+                cfg['chunk'] = r.choice([512, 1000, 1024, 2048, 4096])
+        else:
+            cfg = fft_cfg(r, k, 'quick', ty='f64')
+        sig = r.choice(["rand:%d" % r.below(1 << 30), "sine:%s:%s" % (f64hex(r.uniform(0.001, 0.45)), f64hex(r.uniform(0, 6.28)))])
+        h = gens.valid_history(r.fork('h'), k, 'quick', "ty_%04d_%s_64" % (i, k), cfg=cfg, sig=sig, allow_out_of_envelope=False,
+                               ops_allowed=['pib'] * 5 + ['process', 'setratio', 'setrel', 'setchunk', 'reset'])
+        a = Case("ty_%04d_%s_64" % (i, k), h.spec, {'cfg': cfg, 'kind': k})
+        cfg32 = dict(cfg); cfg32['ty'] = 'f32'
+        b = Case("ty_%04d_%s_32" % (i, k), ["T ty=f32"] + h.spec[1:], {'cfg': cfg32, 'is_twin': True})
+        a.meta['twin'] = b
+        cases += [a, b]
+    worst = [0.0]
+
+    def judge(c):
+        if c.meta.get('is_twin'):
+            return []
+        b = c.meta['twin']
+        if not getattr(b, 'trace', None):
+            b.trace = parse_trace(b.impl_path, b.hist_path)
+        ta, tb = c.trace, b.trace
+        out = []
+        if ta['new'] != tb['new']:
+            return [fail(c, -1, "constructor result differs: f64 %s, f32 %s" % (ta['new'], tb['new']))]
+        if ta['new'] != 'ok':
+            return []
+        if ta['init'].g != tb['init'].g:
+            return [fail(c, -1, "getters of the fresh f64 and f32 resamplers differ: %s vs %s" % (ta['init'].g, tb['init'].g))]
+        for i, (sa, sb) in enumerate(zip(ta['steps'], tb['steps'])):
+            if sa.res in FATAL or sb.res in FATAL:
+                out.append(fail(c, i, "fatal outcome (%s f64 / %s f32)" % (sa.res, sb.res)))
+                break
+            if (sa.res, sa.fields) != (sb.res, sb.fields):
+                out.append(fail(c, i, "call returned %s %s for f64 and %s %s for f32" % (sa.res, sa.fields, sb.res, sb.fields)))
+                break
+            if sa.g != sb.g:
+                out.append(fail(c, i, "getters differ after the call: f64 %s, f32 %s" % (sa.g, sb.g)))
+                break
+            if sa.res in ('counts', 'vecs'):
+                for ch in range(len(sa.outs)):
+                    ya = expand_samples(sa.outs[ch], 'f64')
+                    yb = expand_samples(sb.outs[ch], 'f32')
+                    if sa.res == 'counts':
+                        nout = int(sa.fields[1])
+                        ya, yb = ya[:nout], yb[:nout]
+                    if len(ya) != len(yb):
+                        out.append(fail(c, i, "channel %d: %d f64 frames, %d f32 frames" % (ch, len(ya), len(yb))))
+                        return out
+                    if not ya:
+                        continue
+                    peak = max(1.0, max(abs(v) for v in ya))
+                    d = max(abs(u - v) for u, v in zip(ya, yb)) / (EPS32 * peak)
+                    worst[0] = max(worst[0], d)
+                    if not d <= C17_TOL:
+                        out.append(fail(c, i, "channel %d: f32 output deviates from the f64 output by %.1f * eps32 * peak (allowed %g)" % (ch, d, C17_TOL)))
+                        return out
+        if len(ta['steps']) != len(tb['steps']):
+            out.append(fail(c, min(len(ta['steps']), len(tb['steps'])), "the f64 and f32 runs executed different numbers of calls"))
+        return out
+
+    execute(ctx, cases, res, judge, timeout=300)
+    res['dist'].update(collections.Counter(c.meta.get('kind', 'twin') for c in cases))
+    res['dist']['worst_deviation_eps32_x10'] = int(worst[0] * 10)
+    return res
+
+
+# ================================================================== C18
+def gen_no_shared(rep):
+    sh = rep.get('shared_items', None)
+    if sh is None:
+        return False, "no shared-storage summary was generated"
+    allowed = [x for x in sh if x['file'].startswith('sinc_interpolator/') and x['text'].startswith('static FEATURES: &[CpuFeature] = &[')]
+    extra = [x for x in sh if x not in allowed]
+    if extra:
+        return False, "items with static / thread-local / interior-mutable storage in src: " + "; ".join("%s:%d %s" % (x['file'], x['line'], x['text'][:60]) for x in extra[:6])
+    return True, "the only statics in src are the immutable feature-name tables (%d items)" % len(sh)
+
+
+def warm_variants(r, cfg):
+    """constructor lines of *other* resamplers that differ from cfg in something a cache key might omit"""
+    out = []
+    for _ in range(1 + r.below(3)):
+        c = dict(cfg)
+        k = cfg['kind']
+        if k in gens.ASYNC:
+            c['ratio'] = pick_ratio(r)
+            if k.startswith('sinc') and r.chance(0.5):
+                c['fcut'] = f32round(r.choice([0.5, 0.7, 0.9, 0.97]))
+            if k.startswith('sinc') and r.chance(0.3):
+                c['window'] = r.below(6)
+            if k.startswith('fast') and r.chance(0.5):
+                c['deg'] = r.below(5)
+        else:
+            if r.chance(0.7):
+                # same FFT lengths where possible (rate pair scaled or swapped), different cutoff
+                c['rin'], c['rout'] = cfg['rout'], cfg['rin']
+            else:
+                c['rin'], c['rout'] = r.choice(gens.RATE_PAIRS[:8])
+        out.append("WARM" + new_line(c)[3:])
+    return out
+
+
+def run_C18(ctx):
+    rng, tier = ctx.rng, ctx.tier
+    res = new_results("for all seven types: the same history run (i) alone on the main thread, (ii) by 2..16 instances on 2..16 concurrent threads, the odd "
+                      "ones handing the resampler to a freshly spawned thread for every single call, the odd (or even) ones building and using other "
+                      "resamplers first, (iii) alone after other resamplers with nearby parameters were built and used on the same thread; all "
+                      "traces (results, counts, outputs, getters, hook-visible state, internal buffers) must be bit-identical", ALL_COMPONENTS)
+    cases = []
+    n = 28 if ctx.quick else 350
+
+    def group(name, spec, warm, cfg, nthreads, side):
+        base = Case(name + "_alone", spec, {'cfg': cfg, 'kind': cfg['kind']})
+        par_spec = [spec[0]] + [w + " only=%s" % side for w in warm] + spec[1:]
+        par = Case(name + "_threads", par_spec, {'cfg': cfg, 'is_twin': True, 'threads': nthreads, 'migrate': True, 'no_model': True})
+        seq = Case(name + "_warm", [spec[0]] + warm + spec[1:], {'cfg': cfg, 'is_twin': True, 'no_model': True})
+        mig = Case(name + "_migrate", spec, {'cfg': cfg, 'is_twin': True, 'migrate': True, 'no_model': True})
+        base.meta['twins'] = [('%d concurrent threads' % nthreads, par), ('after other resamplers were built on the same thread', seq),
+                              ('moved to another thread for every call', mig)]
+        return [base, par, seq, mig]
+    rl = getattr(ctx, 'replay_lines', None)
+    if rl:
+        n = 0
+        kind = parse_kv(next(l for l in rl if l.startswith('NEW'))).get('kind')
+        warm = [" ".join(t for t in l.split(' ') if not t.startswith('only=')) for l in rl if l.startswith('WARM')]
+        cases += group("replay", [l for l in rl if not l.startswith('WARM')], warm, {'kind': kind}, 8, 'odd')
+    for i in range(n):
+        r = rng.fork("c18_%d" % i)
+        k = gens.ALL[i % 7]
+        if k in gens.ASYNC:
+            cfg = async_cfg(r, k, 'quick')
+            if k.startswith('sinc') and r.chance(0.7):
+                cfg['interp'] = 'default'
+        else:
+            cfg = fft_cfg(r, k, 'quick')
+        h = gens.valid_history(r.fork('h'), k, 'quick', "th_%04d_%s" % (i, k), cfg=cfg, allow_out_of_envelope=False)
+        warm = warm_variants(r.fork('w'), cfg)
+        cases += group("th_%04d_%s" % (i, k), h.spec, warm, cfg, r.choice([2, 3, 4, 8, 16]), r.choice(['odd', 'even']))
+
+    def judge(c):
+        if c.meta.get('is_twin'):
+            return []
+        out = []
+        a = [l.rstrip('\n') for l in open(c.impl_path)]
+        for what, t in c.meta['twins']:
+            b = [l.rstrip('\n') for l in open(t.impl_path)]
+            verdict = [l for l in b if l.startswith('THREADS ')]
+            b = [l for l in b if not l.startswith('THREADS ')]
+            if t.meta.get('threads'):
+                if not verdict:
+                    out.append(fail(c, -1, "the threaded run did not finish (%s)" % t.status, spec_path=t.spec_path, hist_path=t.hist_path))
+                    continue
+                if not verdict[0].endswith(' equal'):
+                    out.append(fail(c, -1, "instances running the same history on concurrent threads disagree: %s" % verdict[0],
+                                    spec_path=t.spec_path, hist_path=t.hist_path))
+                    continue
+            if a != b:
+                j = next((j for j, (x, y) in enumerate(zip(a, b)) if x != y), min(len(a), len(b)))
+                out.append(fail(c, -1, "trace differs from the stand-alone run when run %s (trace line %d)" % (what, j),
+                                spec_path=t.spec_path, hist_path=t.hist_path))
+        return out
+
+    execute(ctx, cases, res, judge, timeout=600)
+    res['dist'].update(collections.Counter(c.meta.get('kind', 'twin') for c in cases))
+    return res
+
+
 def witness_fails(pid, c):
     """does the stored witness of a known finding still fail on this tree?"""
     tr = c.trace
@@ -1541,5 +1829,39 @@ PROPS = {
                      'FFT types: the shared scratch buffers are harmless because the spectral core is a pure function of its block (checked on every run)'],
         'assumptions': ['the per-channel structure of the model transcribes the loops of the code; tied by bit-exact correspondence on 1..8 channels with sentinels'],
         'trusted_base': ['closed under the global context (no axioms)'],
+    },
+    'C09': {
+        'run': run_C09,
+        'replay_aware': True,
+        'pinned': ['C09_shape_invariant', 'C09_no_alloc_constructs'],
+        'gen_obligations': {'no-alloc-constructs': gen_no_alloc},
+        'unproved': ['that the callees outside the crate (rustfft/realfft process_with_scratch, core slice and float methods) do not allocate: '
+                     'measured by the counting allocator on every call, not proved',
+                     'the summary is syntactic: an allocation hidden behind a new helper function or a new dependency call is seen by the '
+                     'counting allocator only'],
+        'assumptions': ['the `log` feature is off (the harness builds the crate without it)',
+                        'thread-local counting in the global allocator observes every heap event of the calling thread'],
+        'trusted_base': ['closed under the global context (no axioms)', 'tools/sites.py summaries() pattern list ALLOC_PATTERNS / MONITORED_FNS'],
+    },
+    'C17': {
+        'run': run_C17,
+        'replay_aware': True,
+        'pinned': ['C17_control_function_of_ctl', 'C17_control_independent_of_T', 'C17_async_types'],
+        'unproved': ['the numerical half (f32 output within a small multiple of 2^-23 * peak of the f64 output) is measured on every twin history '
+                     'against a fixed tolerance, not proved (a rounding-error analysis of the kernels and of the FFT is not formalised)',
+                     'FFT types: their control state is integer-only and sample-type independent by inspection of the generated records; compared on every twin'],
+        'assumptions': ['control fields of the four asynchronous types are computed by the generated control functions of the model, which never mention the sample type (theorem)'],
+        'trusted_base': ['closed under the global context (no axioms)'],
+    },
+    'C18': {
+        'run': run_C18,
+        'replay_aware': True,
+        'pinned': ['C18_interleaving_projection', 'C18_no_shared_storage'],
+        'gen_obligations': {'no-shared-storage': gen_no_shared},
+        'unproved': ['that rustfft/realfft planners and plans hold no shared mutable state, and that std is_x86_feature_detected! is deterministic: '
+                     'outside the crate; exercised by the concurrent and migrating runs, not proved',
+                     'data races / memory-model effects: the model is sequential; Rust\'s ownership (no unsafe impl Send/Sync in src, checked by the summary) is what excludes them'],
+        'assumptions': ['a resampler instance is a value: the model state of an instance is only reachable through its own step function (theorem: projection of any interleaving)'],
+        'trusted_base': ['closed under the global context (no axioms)', 'tools/sites.py summaries() pattern list SHARED_PATTERNS'],
     },
 }
